@@ -263,6 +263,7 @@ class FieldOptGuard:
                         tr.seed_call_result(s["d"][0], self.steps, False)
                         n += 1
         tr.run()
+        self.tracker = tr
         return n, tr.accept, tr.reject
 
 
@@ -279,6 +280,7 @@ class BoolLocalGuard:
         for l, pos in seeds:
             tr.seed_bool(l, pos)
         tr.run()
+        self.tracker = tr
         return len(seeds), tr.accept, tr.reject
 
 
@@ -774,6 +776,21 @@ def final_edges(g, edges):
     return out or edges
 
 
+def accepted_path_misses(g, acc, rej, sinks, rets):
+    """Is there a path entry → return that crosses an accepting edge of the guard, never a rejecting one, and misses every `sinks` block?
+    (The effect may come before or after the branch that accepts: `if e { push } … !e` decides twice on the same verdict.)"""
+    sinks, rets, rej = set(sinks), set(rets), set(rej)
+    before = g.reach((0,), cut=rej, avoid=sinks)
+    for s_, d_ in acc:
+        if s_ in sinks or s_ not in before:
+            continue
+        if d_ in sinks:
+            continue
+        if g.reach((d_,), cut=rej, avoid=sinks) & rets:
+            return True
+    return False
+
+
 def _must_pass(self, rule, fn, required, descr=None, from_blocks=None, exits="return"):
     """K5: every path from entry (or from `from_blocks`) to a normal return crosses a block matching each
     required sink (list of (label, sink))."""
@@ -817,9 +834,11 @@ def P(index, close=False):
     return f
 
 
-def PL(body, index):
-    from flow import param_locals
-    return param_locals(body._facts, body, index)
+def PL(body, index, aliases=True):
+    """locals holding parameter #index; aliases=False: the parameter's own local(s) only, without the locals that merely hold the same
+    value whole (needed where a variable initialised from the parameter is then changed in place: `let mut v = input; v.retain(..)`)"""
+    from flow import param_locals, _param_locals
+    return param_locals(body._facts, body, index) if aliases else _param_locals(body._facts, body, index)
 
 
 # ------------------------------------------------------------------ "for all elements of a field" (loop or Iterator::all)
@@ -897,30 +916,17 @@ def forall_over_field(self, rule, fn, field, check_pats, descr, extra_ok_checks=
             self.viol(rule, "all-closure-missing", "cannot find the closure given to Iterator::all in %s" % body.path, body, a["term"]["l"])
         else:
             prep(cl)
-            verdicts = {blk["term"]["d"][0] for blk in cl.blocks if blk["term"]["k"] == "call" and callee_matches(blk["term"], check_pats)}
-            vt = Taint(cl).closure(verdicts)
-            bad = []
-            for blk in cl.blocks:
-                for s in blk["stmts"]:
-                    if s["d"] == [0]:
-                        rv = s["rv"]
-                        if rv["k"] == "use" and rv["a"][0] == "c" and rv["a"][1] == "false":
-                            continue
-                        if rv["k"] == "use" and op_local(rv["a"]) in vt:
-                            continue
-                        bad.append(s["l"])
-                t = blk["term"]
-                if t["k"] == "call" and t["d"] == [0] and not callee_matches(t, check_pats):
-                    bad.append(t["l"])
-            if not verdicts or bad:
+            # the closure yields true only where the check held for the element (bodies are in branch form: `_0 = check(x)` reads
+            # `v = check(x); switch v { 0 => _0 = false, _ => _0 = true }`)
+            dummy = Run.__new__(Run)
+            dummy.F, dummy.violations, dummy.instances, dummy.prop = F, [], [], "forall"
+            cgd = CallGuard(check_pats, ("true",), "the element passes %s" % check_pats[0].split("::")[-1])
+            if not _bool_verdict(dummy, "forall", cl, cgd, "forall", emit=False):
                 ok = False
-                self.viol(rule, "all-closure-verdict", "the closure given to all() in %s can return something other than the verdict of %s" % (body.path, check_pats[0]), cl, (bad or [cl.lines[0]])[0])
-            # all()'s result is what is returned (or gates the true return)
-            rt = Taint(body).closure({a["term"]["d"][0]})
-            trues = RetSink("true").blocks(body)
-            ret_ok = all(s["rv"]["k"] == "use" and (op_local(s["rv"]["a"]) in rt or (s["rv"]["a"][0] == "c" and s["rv"]["a"][1] == "false"))
-                         for blk in body.blocks for s in blk["stmts"] if s["d"] == [0]) and a["term"]["d"] != [0] or a["term"]["d"] == [0]
-            if trues or not ret_ok:
+                self.viol(rule, "all-closure-verdict", "the closure given to all() in %s can return something other than the verdict of %s" % (body.path, check_pats[0]), cl, cl.lines[0])
+            # … and the function yields true only where all(..) did
+            agd = BoolLocalGuard(lambda b_, a=a: [(a["term"]["d"][0], True)], "all(..) is true")
+            if not _bool_verdict(dummy, "forall", body, agd, "forall", emit=False):
                 ok = False
                 self.viol(rule, "all-result", "%s can return true without the all(..) verdict" % body.path, body, a["term"]["l"])
             self.inst(rule + ".all", "K4 gate", descr + " (Iterator::all form)", 1, ok)
@@ -1024,7 +1030,7 @@ def _forall_compare(self, rule, fn_body, elem_src, other_src_parent, sink, descr
         hit = None
         for c in cs:
             la, lb = op_local(c["a"]), op_local(c["b"])
-            if (la in elem) != (lb in elem) and 0 in Taint(cl).closure({c["d"]}):
+            if (la in elem) != (lb in elem) and returned_directly(cl, c):
                 hit = c
         if hit is None:
             continue
@@ -1099,6 +1105,7 @@ class FieldBoolGuard:
         for l in seeds:
             tr.seed_bool(l, self.want)
         tr.run()
+        self.tracker = tr
         return len(seeds), tr.accept, tr.reject
 
 
@@ -1111,7 +1118,9 @@ def _bool_verdict(self, rule, body, guard, descr, emit=True):
     """The bool-returning `body` yields `true` only when `guard` accepted: every assignment of the return place is the
     constant false, the guard's own (positive) verdict, or sits behind an accepting edge of the guard."""
     n, acc, _rej = guard.edges(body)
-    tr, seeds = guard.tracker, getattr(guard, "seeds", set())
+    tr, seeds = getattr(guard, "tracker", None), getattr(guard, "seeds", set())
+    if tr is None:
+        tr = Tracker(body)      # a guard that keeps no tracker: only its accepting edges are known
     g = cfg_of(body)
     free = g.reach((0,), cut=acc)
     bad, sites = [], 0
@@ -1160,6 +1169,12 @@ def closures_passed(F, body, term):
     """closure bodies handed as arguments to the call `term` (matched through the closure type of the argument local)"""
     out = []
     for arg in term["args"]:
+        if arg and arg[0] == "f":
+            # a named function passed as a value stands for the closure `|x| f(x)`
+            for h in F.by_npath.get(norm(arg[1]), []):
+                if h.crate == body.crate and h not in out:
+                    out.append(h)
+            continue
         l = op_local(arg)
         ty = body.locals.get(str(l), "") if l is not None else ""
         if "closure" not in ty:
@@ -1369,7 +1384,7 @@ def _wrapper_edges(F, body, gd):
                     g = cfg_of(inner)
                     free = g.reach((0,), cut=acc2)
                     for kind in ("Ok", "true", "Some"):
-                        sinks = set(RetSink(kind).blocks(inner))
+                        sinks = set(RetSink(kind, computed=True).blocks(inner))
                         fwd = {b["id"] for b in inner.blocks if b["term"]["k"] == "call" and b["term"]["d"] == [0] and not b["cleanup"]
                                and not callee_matches(b["term"], allpats)
                                and not (b["term"].get("ngen") or b["term"].get("ncallee") or "").endswith("FromResidual::from_residual")}   # `?`: an error exit
